@@ -1,18 +1,22 @@
 (** C02 — versioned reads return the newest entry at or below the requested version.
 
-    Same model and specification as C01.  The full statement (arbitrary
-    version orders) is refuted for the faithful model ([C02_order_refuted]:
-    the first memtable / level that holds any version <= v answers — known
-    finding C02-F4); [C02_reads_latest_version] is the statement that holds:
-    whenever the sources are ordered by recency (which writes with increasing
-    versions per key maintain), a read at [v] returns the write with the
-    greatest version <= [v]. *)
-From Coq Require Import List NArith.
+    Same model and specification as C01: Model/Lsm.v is the read path after the
+    repair of the first-hit rule (known finding C02-F4, fixed: LSM.Get used to
+    return the first memtable / level holding any version <= v, so an older
+    version written later hid a newer one that was already flushed; it now
+    keeps the greatest version over every memtable and level).
+
+    [C02_reads_any_version_order] is the full statement for histories of
+    writes in ARBITRARY version order, memtable rotations, flushes and reopens
+    of any length; with compactions the statement rests on the recency order
+    of equal internal keys ([scan_inv], no order between versions), which the
+    ingest buffer can break for equal versions only (C01-F2). *)
+From Coq Require Import String List NArith.
 From NoKV Require Import Base.Bytes Model.Lsm Spec.MvccSpec Spec.LsmSpec
      Proofs.LsmOrder Proofs.LsmRead Proofs.LsmGet Proofs.LsmMain Proofs.LsmWitness.
 
 Theorem C02_reads_latest_version : forall s ws k v,
-  src_inv s -> tier_inv (tiers_of s) -> content_ok s ws -> seq_functional ws ->
+  src_inv s -> scan_inv (scan_srcs s) -> content_ok s ws -> seq_functional ws ->
   get s k v = latest_at ws k v.
 Proof. exact get_latest. Qed.
 Print Assumptions C02_reads_latest_version.
@@ -29,21 +33,38 @@ Theorem C02_source_search_none : forall k v l,
 Proof. exact src_search_none. Qed.
 Print Assumptions C02_source_search_none.
 
-Theorem C02_tiered_read_latest : forall k v tiers,
-  tier_inv tiers -> is_latest (all_recs tiers) k v (tget k v tiers).
-Proof. exact tget_latest. Qed.
-Print Assumptions C02_tiered_read_latest.
+(** The scan over all sources returns the latest write among the scanned records. *)
+Theorem C02_scan_read_latest : forall k v srcs,
+  scan_inv srcs -> is_latest (concat srcs) k v (tier_best k v srcs).
+Proof. exact scan_latest. Qed.
+Print Assumptions C02_scan_read_latest.
 
-Theorem C02_order_refuted :
-  exists ops k v, option_map r_val (get (run (init 1) ops) k v)
-                  <> option_map r_val (latest_at (writes ops) k v).
-Proof. exact out_of_order_refuted. Qed.
-Print Assumptions C02_order_refuted.
+(** The read path is that scan. *)
+Theorem C02_get_is_scan : forall s k v, src_inv s -> get s k v = tier_best k v (scan_srcs s).
+Proof. exact get_is_flat. Qed.
+Print Assumptions C02_get_is_scan.
 
-(** Newest-version reads for whole histories of versioned writes (per key:
-    versions never decrease), memtable rotations and flushes, of any length
-    (Proofs/LsmPreserve.v). *)
+(** The former witness of C02-F4 (write (a,7); flush; write (a,5); read at 10)
+    now returns version 7. *)
+Theorem C02_out_of_order_fixed :
+  option_map r_val (get (run (init 1) out_of_order) (of_string "a"%string) 10) = Some (of_string "new"%string) /\
+  option_map r_val (latest_at (writes out_of_order) (of_string "a"%string) 10) = Some (of_string "new"%string) /\
+  option_map r_val (get (run (init 1) out_of_order) (of_string "a"%string) 6) = Some (of_string "old"%string).
+Proof. exact out_of_order_ok. Qed.
+Print Assumptions C02_out_of_order_fixed.
+
+(** Newest-version reads for whole histories of writes in any version order,
+    memtable rotations, flushes and reopens, of any length
+    (Proofs/LsmPreserve.v).  [number] assigns the ghost acknowledgement indices
+    1, 2, ... in history order; the only condition on the writes is a positive
+    version. *)
 From NoKV Require Import Proofs.LsmInv Proofs.LsmPreserve.
+
+Theorem C02_reads_any_version_order : forall m ops,
+  forallb mlfr_op ops = true -> forallb ver_pos ops = true ->
+  forall k v, get (run (init m) (number ops)) k v = latest_at (writes (number ops)) k v.
+Proof. exact reads_any_version_order. Qed.
+Print Assumptions C02_reads_any_version_order.
 
 Theorem C02_versioned_memtables_l0 : forall m ops,
   forallb mlf_op ops = true -> puts_monotone ops = true ->
